@@ -347,21 +347,22 @@ fn run() {
         return;
     }
     let thorough = common::thorough();
-    let (max_n, max_w) = if thorough { (7, 5) } else { (6, 4) };
+    let (max_n, max_w) = if thorough { (9, 8) } else { (6, 8) };
+    let dep_n = if thorough { 6 } else { 5 };
     let mut cfgs = Vec::new();
     for n in 0..=max_n {
         for w in 1..=max_w {
-            let bound = if n <= 4 { 2 } else if n <= 5 { 1 } else { 0 };
+            let bound = if thorough { if n <= 4 { 4 } else if n <= 5 { 3 } else if n <= 6 { 2 } else if n <= 7 { 1 } else { 0 } } else if n <= 4 { 2 } else if n <= 5 { 1 } else { 0 };
             cfgs.push(Cfg15 { n, w, variant: Variant::Join, dep: None, err: None, bound, inexact: false });
             // every single dependency (a waits for the completion of b) inside the window
             for a in 0..n {
                 for b in 0..n {
-                    if a != b && a.abs_diff(b) < w && n <= 5 {
+                    if a != b && a.abs_diff(b) < w && n <= dep_n {
                         cfgs.push(Cfg15 { n, w, variant: Variant::Join, dep: Some((a, b)), err: None, bound: bound.min(1), inexact: false });
                     }
                 }
             }
-            if n <= 5 {
+            if n <= dep_n {
                 for inexact in [false, true] {
                     for a in 0..n {
                         for b in 0..n {
@@ -382,7 +383,7 @@ fn run() {
                 }
             }
         }
-        if n <= 5 {
+        if n <= dep_n {
             cfgs.push(Cfg15 { n, w: 2, variant: Variant::Parallel, dep: None, err: None, bound: 0, inexact: false });
             for e in 0..n {
                 cfgs.push(Cfg15 { n, w: 2, variant: Variant::Parallel, dep: None, err: Some(e), bound: 0, inexact: false });
@@ -390,7 +391,7 @@ fn run() {
         }
     }
     r.flag("exhaustive", true);
-    let cap = if thorough { 50_000_000 } else { 5_000_000 };
+    let cap = if thorough { 200_000_000 } else { 5_000_000 };
     let results = common::par_map(cfgs.len(), common::ncpu(), |i| {
         let mut obs = Obs15::default();
         let st = explore::explore(cfgs[i].bound, cap, |cx| run_one(&cfgs[i], cx, &mut obs));
